@@ -107,6 +107,29 @@ CHECKS = {
          "Declared allocation sizes are capped at 1 MiB as in the quantifier; a watchdog (30 s / 3 GiB per case) reports runaway cases as a cap; the thorough tier adds the race-oracle pass (concurrent map access = violation).",
          "DESIGN.md §5 C03"),
 }
+
+# sentences appended to the level texts: what the audit phase (DESIGN.md §12.4) added to each check
+ADDED = {
+ "C01": "Stream decoders are also fed by readers delivering 1, 7 and 113 bytes per call; every split function is checked on every prefix of a two-token stream; paths of 17 items of 255 bytes, user records built from icon fields of 0/1/3 bytes and information forks with names of 65,461 and 65,535 bytes are among the objects.",
+ "C03": "The sentinel's probe also asks for the client info of every listed user and the file lists of the root and the upload folder; further scenarios: the same flood with 30 pending replies one deviation deeper, junk uploaded under an information-fork side-file name, aliases pointing at themselves.",
+ "C04": "The reference is exact password equality (also beyond bcrypt's 72-byte limit); a password P 00 P against the password P is a probe.",
+ "C05": "Also: folders below a drop box / upload folder, renames that contain a separator, renames/moves/account renames onto taken names (nothing may be replaced), batched UpdateUser requests mixing entries under different privileges (nothing may be carried out when the request is refused), live sessions of an account edited through SetUser, UpdateUser, rename+edit and rename then SetUser; per-kind forbidden-state oracles; the name announced to others must be the listed name.",
+ "C06": "Protection granted through SetUser, UpdateUser and rename+grant while two sessions of the account are connected.",
+ "C07": "Also with a requester whose own file root has a non-ASCII name.",
+ "C08": "Also for an account with its own file root next to a same-named file in the server root, for a name that only exists as a partial upload (must be refused), and on resume the DATA fork header must announce the bytes that follow.",
+ "C09": "A download is attempted after the first cut; a resume request racing the still-draining cut transfer is explored under every schedule with at most 1 (thorough 2) deviations.",
+ "C10": "On resume the item's DATA fork header must announce the remaining bytes; trees include entries with stored information and resource forks.",
+ "C11": "Names containing '.incomplete' in the middle, a folder with a non-ASCII name, an information-fork side file of a partial upload, moving a partial upload, renaming an alias.",
+ "C12": "Histories in which the 16-bit id counter wraps after a member left (the new holder of the id must receive nothing), account edits through UpdateUser and rename, the emote option as a 2- or 4-byte integer.",
+ "C13": "Also: agreements without an icon field or with a 1-byte one, requests addressed to an id nobody holds (error reply, requester stays), a login while all 65,535 ids are in use (refused, server not wedged), and under every schedule with at most 1 (thorough 2) deviations the notices about one user reach an observer in the order of the requests.",
+ "C14": "Sizes include server-built fields of 65,536 and 70,000 bytes and a 70,400-byte message board (the stream must still re-frame).",
+ "C15": "Logins include strings the YAML library does not write back faithfully (a leading line feed; a leading tab followed by a line feed); the stored hash is verified through the server's own Authenticate.",
+ "C16": "Also a 5-byte access field and the 354 notice after rename-then-SetUser.",
+ "C17": "Also ban options sent as 4-byte integers, a connection that shook hands before the ban and logs in during it, a banned address that only shakes hands, a ban whose save fails, two users behind one address banned permanently then temporarily.",
+ "C18": "Also titles/bodies with leading tab/line feed and a 65,535-byte body, categories named '<<', delete-article on a missing category.",
+ "C19": "A post is on disk iff it was acknowledged; posts of 60,000..65,500 bytes (refused when the announcement does not fit one field) must not damage any stream.",
+ "C20": "The alphabet includes a post with tab/line-feed text and a category named '<<'.",
+}
 NOT_YET = "check not built yet in this session (see DESIGN.md §11 build order)"
 
 def main():
@@ -115,6 +138,8 @@ def main():
         if pid not in CHECKS:
             continue
         cat, tech, text, note, dref = CHECKS[pid]
+        if pid in ADDED:
+            text = text + " " + ADDED[pid]
         checks.append({
             "property_id": pid,
             "quick_cmd": "./run.sh %s quick" % pid,
